@@ -938,7 +938,7 @@ def _check_snapshot(led, sn, where, fails, readback=True):
         add("object-ids", f"Concatenated object IDs {sn['objs']} != live holes {sorted(led.holes)}")
 
 
-def _check_view(led, view, sn, where, fails):
+def _check_view(led, view, sn, where, fails, stats=None):
     """Specification: the table of group name P lists, hole after hole (in the order of the depth rows), the depths of the
     hole's group P and, for every data name occurring in a group P, the hole's values (no-data where the hole lacks it)."""
     if not isinstance(view, dict):
@@ -995,12 +995,17 @@ def _check_view(led, view, sn, where, fails):
             by_name = {label_name(led.data[d]["name"]): led.data[d]["vals"] for d in led.pgs[p]["members"]}
             for i in range(len(by_name.get(assoc, []))):
                 exp.append([h] + [(by_name[c][i] if c in by_name else None) for c in [assoc] + names])
+        if stats is not None:
+            stats["tables_compared"] = stats.get("tables_compared", 0) + 1
+            if cols == [assoc] + names and tab["rows"] == exp:
+                stats["tables_equal"] = stats.get("tables_equal", 0) + 1
+                stats["table_rows"] = stats.get("table_rows", 0) + len(exp)
         if cols != [assoc] + names or tab["rows"] != exp:
             key = "table-view-looks-up-by-name-not-by-group" if mixed else "table-view"
             fails.append({"key": key, "what": f"{where}: depth_table pg{pname} columns {cols} rows {tab['rows']}; the holes' groups pg{pname} give columns {[assoc] + names} rows {exp}"})
 
 
-def oracle(case, obs):
+def oracle(case, obs, stats=None):
     if "crash" in obs:
         return [{"key": "driver-crash", "what": obs["crash"][:300] + " " + obs.get("tb", "")[-400:]}]
     fails = []
@@ -1069,10 +1074,10 @@ def oracle(case, obs):
                                      "vals": []}, where + " (file after close)", fails, readback=False)
         _check_snapshot(led, stp["snap"], where, fails)
         if "view" in stp:
-            _check_view(led, stp["view"], stp["snap"], where, fails)
+            _check_view(led, stp["view"], stp["snap"], where, fails, stats)
     else:
         if obs.get("final", {}).get("view") is not None and steps:
-            _check_view(led, obs["final"]["view"], steps[-1]["snap"], "end", fails)
+            _check_view(led, obs["final"]["view"], steps[-1]["snap"], "end", fails, stats)
     # one report per key
     seen, out = set(), []
     for f in fails:
@@ -1107,7 +1112,7 @@ def nontrivial(case, obs):
 
 def histogram(cases, obs):
     h = {"version": {}, "n_ops": {}, "op_kinds": {}, "holes": {}, "soft_errors": {}, "hard_errors": {}, "zero_length_rows": 0,
-         "shifting_deletions": 0, "reopens": 0}
+         "shifting_deletions": 0, "reopens": 0, "steps_compared": 0, "table_view": {}}
     for c, o in zip(cases, obs):
         h["version"][str(c["version"])] = h["version"].get(str(c["version"]), 0) + 1
         b = str(len(c["ops"]) // 5 * 5)
@@ -1118,6 +1123,12 @@ def histogram(cases, obs):
             h["op_kinds"][op["op"]] = h["op_kinds"].get(op["op"], 0) + 1
             if op["op"] == "reopen":
                 h["reopens"] += 1
+        if isinstance(o, dict) and "steps" in o:
+            h["steps_compared"] += len(o["steps"])
+            try:
+                oracle(c, o, h["table_view"])
+            except Exception:  # noqa: BLE001
+                pass
         if isinstance(o, dict):
             for stp in o.get("steps", []):
                 if "soft" in stp:
